@@ -1,159 +1,404 @@
 // C18 — KEEP_LAST / KEEP_ALL history of the DataReader sample cache.
 // Pattern S: ONE real `DataReaderEntity::<()>::add_reader_change` from a directly constructed
 // symbolic pre-state (see support_reader.rs for the bounded family and the representation invariant).
+//
+// Finding KF-C18-1 (see known_findings.d/reader_cache1.json): the resource-limit tests of
+// add_reader_change (data_reader_entity.rs:460-507) run BEFORE the KEEP_LAST replacement
+// (data_reader_entity.rs:516-527), so a KEEP_LAST reader whose instance already holds `depth` ALIVE
+// samples rejects the next sample (SamplesPerInstanceLimit when max_samples_per_instance == depth,
+// SamplesLimit when max_samples is reached) although the replacement would not grow the cache.
 use super::support_reader::*;
-use crate::infrastructure::qos_policy::{DestinationOrderQosPolicyKind, HistoryQosPolicyKind, Length};
-use crate::infrastructure::status::SampleRejectedStatusKind;
-use crate::transport::types::ChangeKind;
-
-/// History invariant the implementation maintains: per instance at most `depth` stored ALIVE samples.
-fn keep_last_inv_pre(pre: &PreState, depth: usize) -> bool {
-    pre.inst_alive(0) <= depth && pre.inst_alive(1) <= depth
-}
-
-/// Resource-limit invariant (C19) — needed here because the implementation tests the limits with `==`.
-fn limits_inv_pre(pre: &PreState, ms: Length, mi: Length, mspi: Length) -> bool {
-    within_limit(pre.alive_total(), ms)
-        && within_limit(pre.instances_with_samples(), mi)
-        && within_limit(pre.inst_total(0), mspi)
-        && within_limit(pre.inst_total(1), mspi)
-}
+use crate::infrastructure::instance::InstanceHandle;
+use crate::infrastructure::qos_policy::DestinationOrderQosPolicyKind;
+// alias: Kani's stub path resolver picks the derive macro `PartialEq` instead of the trait otherwise
+use core::cmp::PartialEq as HandlePartialEq;
 
 /// Trigger of KF-C18-1: the instance of the incoming change already holds `depth` ALIVE samples (so
 /// KEEP_LAST must replace the oldest one and the number of stored samples does not grow) while a
 /// resource limit that the replacement would not exceed is "reached".
-fn kf_c18_1_trigger(pre: &PreState, c: &Incoming, depth: usize, ms: Length, mspi: Length) -> bool {
-    pre.inst_alive(c.inst) == depth
-        && (limit_reached(pre.inst_total(c.inst), mspi) || limit_reached(pre.alive_total(), ms))
+fn kf_c18_1_trigger(cfg: &Cfg, pre: &PreState, c: &Incoming) -> bool {
+    cfg.replacement_case(pre, c)
+        && (limit_reached(pre.inst_total(c.inst), cfg.mspi) || limit_reached(pre.alive_total(), cfg.ms))
 }
 
-struct Cfg {
-    depth: usize,
-    ms: Length,
-    mi: Length,
-    mspi: Length,
-    order: DestinationOrderQosPolicyKind,
+#[derive(Clone, Copy, PartialEq, Eq)]
+enum Mode {
+    /// pre-state restricted to the trigger of KF-C18-1; only the violated assertion is stated
+    Known,
+    /// negation of the trigger assumed; the full step contract is asserted
+    Rest,
 }
 
-fn keep_last_setup(order: DestinationOrderQosPolicyKind) -> (Cfg, PreState, Incoming) {
-    let depth: u32 = kani::any();
-    kani::assume(depth >= 1 && depth <= 3);
-    let cfg = Cfg {
-        depth: depth as usize,
-        ms: any_limit(),
-        mi: any_limit(),
-        mspi: any_limit(),
-        order,
-    };
-    let pre = any_pre_state();
-    kani::assume(keep_last_inv_pre(&pre, cfg.depth));
-    kani::assume(limits_inv_pre(&pre, cfg.ms, cfg.mi, cfg.mspi));
-    let c = any_incoming();
-    (cfg, pre, c)
+/// One real step and what it observed (vacuity witnesses are stated per harness: a `kani::cover!` that
+/// a harness cannot reach counts as a failed witness).
+struct Run {
+    cfg: Cfg,
+    pre: PreState,
+    c: Incoming,
+    res: StepResult,
+    post: PostState,
+    rep_ok_after: bool,
+    replacement_case: bool,
+    evicted: usize,
+    keep_last: bool,
+    grew: bool,
 }
 
-fn keep_last_check(cfg: &Cfg, pre: &PreState, c: &Incoming, known_trigger: bool) {
-    let qos = reader_qos(
-        HistoryQosPolicyKind::KeepLast(cfg.depth as u32),
-        cfg.ms,
-        cfg.mi,
-        cfg.mspi,
-        cfg.order,
-        zero_separation(),
-    );
-    let mut r = build_reader(qos, pre);
-    let res = step(&mut r, c);
+fn c18_run(st: &Structure, hist: Hist, order: DestinationOrderQosPolicyKind, mode: Mode) -> Run {
+    let cfg = any_cfg(hist, order, zero_separation());
+    let (pre, c) = any_run(st, &cfg, TimeDomain::Small);
+    match mode {
+        Mode::Known => kani::assume(kf_c18_1_trigger(&cfg, &pre, &c)),
+        Mode::Rest => kani::assume(!kf_c18_1_trigger(&cfg, &pre, &c)),
+    }
+    let mut r = build_reader(cfg.qos(), &pre);
+    let res = step(&mut r, &c);
     let post = observe(&r);
+    let rep_ok_after = rep_ok_real(&r);
+    core::mem::forget(r);
+    Run {
+        cfg,
+        pre,
+        c,
+        res,
+        rep_ok_after,
+        replacement_case: cfg.replacement_case(&pre, &c),
+        evicted: cfg.evicted(&pre, &c),
+        keep_last: cfg.keep_last(),
+        grew: post.n == pre.n + 1,
+        post,
+    }
+}
 
-    let replacement_case = pre.inst_alive(c.inst) == cfg.depth;
-
-    // (c) never rejected because of depth
-    if replacement_case {
+/// (c) never rejected because of depth — the assertion KF-C18-1 violates
+fn assert_not_rejected_for_depth(x: &Run) {
+    if x.replacement_case {
         assert!(
-            !matches!(res, StepResult::Rejected(_, _)),
+            !matches!(x.res, StepResult::Rejected(_, _)),
             "C18: KEEP_LAST must replace the oldest sample instead of rejecting the new one"
         );
     }
-    if known_trigger {
-        kani::cover!(matches!(res, StepResult::Rejected(_, _)), "rejected in the replacement case");
-        core::mem::forget(r);
-        return;
-    }
-    match res {
+}
+
+/// the full step contract of C18
+fn c18_contract(x: &Run) {
+    let (cfg, pre, c, post) = (&x.cfg, &x.pre, &x.c, &x.post);
+    assert_not_rejected_for_depth(x);
+    match x.res {
         StepResult::Added => {
             // (b) the new sample is stored ...
-            let p = post.position_of(NEW_TAG);
-            assert!(p < MAX_POST, "C18: the new sample is stored");
-            if p < MAX_POST {
-                assert!(
-                    post.s[p].kind == c.kind && post.s[p].inst == c.inst && post.s[p].ts == c.ts,
-                    "C18: the stored sample is the received one"
-                );
-            }
-            if replacement_case {
+            assert!(post.new_samples() == 1, "C18: the new sample is stored");
+            assert!(post.new_sample_matches(c) == 1, "C18: the stored sample is the received one");
+            if x.replacement_case {
                 // ... the removed one is the OLDEST (first in storage order) ALIVE sample of that instance
-                let oldest = pre.first(|s| s.inst == c.inst && s.kind == ChangeKind::Alive);
-                assert!(oldest < MAX_STORED, "C18: replacement case has an ALIVE sample");
+                assert!(x.evicted < MAX_STORED, "C18: replacement case has an ALIVE sample");
                 assert!(post.n == pre.n, "C18: replacement keeps the number of stored samples");
-                assert!(!post.contains(pre.s[oldest].tag), "C18: the oldest ALIVE sample of the instance is the one removed");
-                assert!(post.keeps_all_but(pre, oldest), "C18: every other stored sample is kept unchanged, in order");
+                assert!(post.dropped(pre, x.evicted), "C18: the oldest ALIVE sample of the instance is the one removed");
+                assert!(post.keeps_all_but(pre, x.evicted), "C18: every other stored sample is kept unchanged, in order");
             } else {
-                assert!(post.n == pre.n + 1, "C18: below depth nothing is removed");
-                assert!(post.keeps_all_but(pre, MAX_STORED), "C18: below depth every stored sample is kept unchanged, in order");
+                assert!(post.n == pre.n + 1, "C18: below depth (or KEEP_ALL) nothing is removed");
+                assert!(post.keeps_all_but(pre, MAX_STORED), "C18: below depth (or KEEP_ALL) every stored sample is kept unchanged, in order");
             }
             if cfg.order == DestinationOrderQosPolicyKind::ByReceptionTimestamp {
-                assert!(p + 1 == post.n, "C18: BY_RECEPTION_TIMESTAMP stores the newest sample last");
+                assert!(post.new_sample_is_last(), "C18: BY_RECEPTION_TIMESTAMP stores the newest sample last");
             }
         }
         StepResult::Rejected(h, reason) => {
             // (d) a rejection is always justified by a reached resource limit, never by depth
             assert!(h == c.inst, "C18: rejection names the instance of the change");
-            let justified = match reason {
-                SampleRejectedStatusKind::RejectedBySamplesLimit => limit_reached(pre.total(), cfg.ms),
-                SampleRejectedStatusKind::RejectedByInstancesLimit => {
-                    pre.inst_total(c.inst) == 0 && limit_reached(pre.instances_with_samples(), cfg.mi)
-                }
-                SampleRejectedStatusKind::RejectedBySamplesPerInstanceLimit => {
-                    limit_reached(pre.inst_total(c.inst), cfg.mspi)
-                }
-                SampleRejectedStatusKind::NotRejected => false,
-            };
-            assert!(justified, "C18: Rejected only when the named resource limit is reached");
+            assert!(cfg.rejection_justified(pre, c, reason), "C18: Rejected only when the named resource limit is reached");
             assert!(post.unchanged(pre), "C18: a rejected change leaves the stored samples untouched");
         }
         StepResult::NotAdded => {
             assert!(false, "C18: without time-based filter and exclusive ownership nothing is silently dropped");
         }
         StepResult::Error => {
-            assert!(is_not_alive_kind(c.kind) && !pre.inst[c.inst].known, "C18: Err only for a dispose/unregister of an unknown instance");
+            assert!(is_not_alive_kind(c.kind) && !pre.inst_known(c.inst), "C18: Err only for a dispose/unregister of an unknown instance");
             assert!(post.unchanged(pre), "C18: an erroneous change leaves the stored samples untouched");
         }
     }
-    // (e) invariant re-established
-    assert!(
-        post.inst_alive(0) <= cfg.depth && post.inst_alive(1) <= cfg.depth,
-        "C18: per instance at most depth ALIVE samples after the step"
-    );
-    assert!(rep_ok_real(&r), "reader cache representation invariant after the step");
+    // (e) invariants re-established
+    assert!(cfg.history_inv_post(post), "C18: per instance at most depth ALIVE samples after the step");
+    assert!(cfg.limits_inv_post(post), "C18: resource-limit invariant after the step");
+    assert!(x.rep_ok_after, "reader cache representation invariant after the step");
+}
 
-    kani::cover!(res == StepResult::Added && replacement_case && pre.n == 3, "a sample was replaced in a full cache");
-    kani::cover!(res == StepResult::Added && !replacement_case && pre.n >= 1, "a sample was appended below depth");
-    kani::cover!(matches!(res, StepResult::Rejected(_, _)), "a rejection for a resource limit is reachable");
-    core::mem::forget(r);
+fn c18_check(st: &Structure, hist: Hist, order: DestinationOrderQosPolicyKind) -> Run {
+    let x = c18_run(st, hist, order, Mode::Rest);
+    c18_contract(&x);
+    x
+}
+
+fn c18_known(st: &Structure) {
+    let x = c18_run(st, Hist::KeepLast, DestinationOrderQosPolicyKind::ByReceptionTimestamp, Mode::Known);
+    kani::cover!(
+        x.res == StepResult::Rejected(x.c.inst, crate::infrastructure::status::SampleRejectedStatusKind::RejectedBySamplesPerInstanceLimit),
+        "trigger reached: rejected for max_samples_per_instance in the replacement case"
+    );
+    kani::cover!(
+        x.res == StepResult::Rejected(x.c.inst, crate::infrastructure::status::SampleRejectedStatusKind::RejectedBySamplesLimit),
+        "trigger reached: rejected for max_samples in the replacement case"
+    );
+    assert_not_rejected_for_depth(&x);
+}
+
+const BY_RECEPTION: DestinationOrderQosPolicyKind = DestinationOrderQosPolicyKind::ByReceptionTimestamp;
+const BY_SOURCE: DestinationOrderQosPolicyKind = DestinationOrderQosPolicyKind::BySourceTimestamp;
+
+fn keep_last_covers(o: &Run) {
+    kani::cover!(o.res == StepResult::Added && o.replacement_case, "a sample was replaced (KEEP_LAST at depth)");
+    kani::cover!(o.res == StepResult::Added && !o.replacement_case && o.grew, "KEEP_LAST below depth appended");
+    kani::cover!(matches!(o.res, StepResult::Rejected(_, _)), "a rejection for a resource limit is reachable");
+}
+fn keep_last_covers_n2(o: &Run) {
+    keep_last_covers(o);
+    kani::cover!(
+        o.res == StepResult::Added && o.replacement_case && o.evicted > 0,
+        "the evicted sample is not the first stored one (other instance / not-alive sample in front)"
+    );
+}
+fn keep_all_covers(o: &Run) {
+    kani::cover!(o.res == StepResult::Added && o.grew, "KEEP_ALL appended to a non-empty cache");
+    kani::cover!(matches!(o.res, StepResult::Rejected(_, _)), "KEEP_ALL rejects only for a reached resource limit");
+}
+
+// ===== harnesses (one Kani proof per line of the table in the file header) =====
+
+// @check props=C18,C19,C21,C25 tier=quick
+// @desc The loop-free stub `handle_eq_stub` installed in every reader-cache harness returns exactly what the real derived `<InstanceHandle as PartialEq>::eq` returns, for all 2 x 16 bytes (this harness runs the real `eq`, no stub).
+// @bounds none (all 32 bytes symbolic); unwind 18 = 16-byte memcmp + 2
+// @enc dcps::infrastructure::instance::InstanceHandle::eq
+#[kani::proof]
+#[kani::unwind(18)]
+fn c18_handle_eq_stub_is_equivalent() {
+    let a: [u8; 16] = kani::any();
+    let b: [u8; 16] = kani::any();
+    let (ha, hb) = (InstanceHandle::new(a), InstanceHandle::new(b));
+    assert!((ha == hb) == handle_eq_stub(&ha, &hb), "handle_eq_stub equals the derived InstanceHandle::eq");
+    kani::cover!(ha == hb, "equal handles");
+    kani::cover!(ha != hb && a[0] == b[0] && a[15] != b[15], "handles differing in the last byte only");
 }
 
 // @check props=C18 tier=quick
-// @desc KEEP_LAST(depth), BY_RECEPTION_TIMESTAMP: one real add_reader_change from any cache state with <= depth ALIVE samples per instance: the new sample is stored (last), the sample removed (only when the instance already holds depth ALIVE samples) is the oldest ALIVE sample of that instance, all others are kept in order, a rejection only happens for a reached resource limit, and the invariant (<= depth ALIVE per instance, representation invariant) holds again. Outside the recorded trigger of KF-C18-1.
-// @bounds <= 3 stored samples, 2 instance handles, 2 writers, depth 1..=3, each resource limit in {1,2,3,unlimited} (QoS consistent), all 5 change kinds, source timestamps None or sec 0..4 x nanosec {0, 5*10^8}; unwind 18 (16-byte handle compare + <=4-element lists)
-// @assume pre-state satisfies the representation invariant R1-R3, the KEEP_LAST invariant and the resource-limit invariant (all re-asserted after the step)
+// @desc KEEP_LAST(depth), BY_RECEPTION_TIMESTAMP, cache with exactly 1 stored sample(s): one real add_reader_change; the new sample is stored last; a sample is removed only when the instance already holds depth ALIVE samples and then it is the oldest (first stored) ALIVE sample of that instance; all other samples are kept unchanged in their order; Rejected only for a reached resource limit and then nothing changes; NotAdded never; history, resource-limit and representation invariants hold again. Outside the trigger of KF-C18-1.
+// @bounds exactly 1 stored sample(s), KEEP_LAST(depth) with depth 1..=3, BY_RECEPTION_TIMESTAMP, 2 instance handles (both registered), 2 writers, each resource limit in {1,2,3,unlimited} (QoS consistent), all 5 change kinds for stored and incoming samples, source timestamps None or sec 0..4 x nanosec {0, 5*10^8}, symbolic sample/view/instance states and generation counts 0..2, instance_ownership empty; unwind 6 (lists <= 4 elements + 2)
+// @assume pre-state satisfies the representation invariant R1-R3, the KEEP_LAST invariant (<= depth ALIVE samples per instance) and the resource-limit invariant (all re-asserted after the step)
 // @assume DataReaderQos::is_consistent() holds; ownership SHARED; time-based filter off (minimum_separation 0)
-// @assume negation of the KF-C18-1 trigger: not (instance holds depth ALIVE samples and (samples of the instance == max_samples_per_instance or ALIVE samples == max_samples))
+// @assume negation of the KF-C18-1 trigger: not (the instance holds depth ALIVE samples and (samples of the instance == max_samples_per_instance or ALIVE samples == max_samples))
+// @assume <InstanceHandle as PartialEq>::eq replaced by the loop-free handle_eq_stub (equivalence: c18_handle_eq_stub_is_equivalent)
 // @enc dcps::dcps_domain_participant::data_reader_entity::DataReaderEntity::add_reader_change
 // @enc dcps::dcps_domain_participant::data_reader_entity::InstanceState::update_state
 #[kani::proof]
-#[kani::unwind(18)]
-fn c18_keep_last_reception_order() {
-    let (cfg, pre, c) = keep_last_setup(DestinationOrderQosPolicyKind::ByReceptionTimestamp);
-    kani::assume(!kf_c18_1_trigger(&pre, &c, cfg.depth, cfg.ms, cfg.mspi));
-    keep_last_check(&cfg, &pre, &c, false);
+#[kani::unwind(6)]
+#[kani::solver(minisat)]
+#[kani::stub(<crate::infrastructure::instance::InstanceHandle as HandlePartialEq<crate::infrastructure::instance::InstanceHandle>>::eq, super::support_reader::handle_eq_stub)]
+fn c18_keep_last_n1__rest() {
+    let o = c18_check(&plain(1), Hist::KeepLast, BY_RECEPTION);
+    keep_last_covers(&o);
+}
+
+// @check props=C18 tier=quick
+// @desc KEEP_LAST(depth), BY_RECEPTION_TIMESTAMP, cache with exactly 2 stored sample(s): one real add_reader_change; the new sample is stored last; a sample is removed only when the instance already holds depth ALIVE samples and then it is the oldest (first stored) ALIVE sample of that instance; all other samples are kept unchanged in their order; Rejected only for a reached resource limit and then nothing changes; NotAdded never; history, resource-limit and representation invariants hold again. Outside the trigger of KF-C18-1.
+// @bounds exactly 2 stored sample(s), KEEP_LAST(depth) with depth 1..=3, BY_RECEPTION_TIMESTAMP, 2 instance handles (both registered), 2 writers, each resource limit in {1,2,3,unlimited} (QoS consistent), all 5 change kinds for stored and incoming samples, source timestamps None or sec 0..4 x nanosec {0, 5*10^8}, symbolic sample/view/instance states and generation counts 0..2, instance_ownership empty; unwind 6 (lists <= 4 elements + 2)
+// @assume pre-state satisfies the representation invariant R1-R3, the KEEP_LAST invariant (<= depth ALIVE samples per instance) and the resource-limit invariant (all re-asserted after the step)
+// @assume DataReaderQos::is_consistent() holds; ownership SHARED; time-based filter off (minimum_separation 0)
+// @assume negation of the KF-C18-1 trigger: not (the instance holds depth ALIVE samples and (samples of the instance == max_samples_per_instance or ALIVE samples == max_samples))
+// @assume <InstanceHandle as PartialEq>::eq replaced by the loop-free handle_eq_stub (equivalence: c18_handle_eq_stub_is_equivalent)
+// @enc dcps::dcps_domain_participant::data_reader_entity::DataReaderEntity::add_reader_change
+// @enc dcps::dcps_domain_participant::data_reader_entity::InstanceState::update_state
+#[kani::proof]
+#[kani::unwind(6)]
+#[kani::solver(minisat)]
+#[kani::stub(<crate::infrastructure::instance::InstanceHandle as HandlePartialEq<crate::infrastructure::instance::InstanceHandle>>::eq, super::support_reader::handle_eq_stub)]
+fn c18_keep_last_n2__rest() {
+    let o = c18_check(&plain(2), Hist::KeepLast, BY_RECEPTION);
+    keep_last_covers_n2(&o);
+}
+
+// @check props=C18 tier=quick
+// @desc KEEP_ALL, BY_RECEPTION_TIMESTAMP, cache with exactly 2 stored sample(s): one real add_reader_change never removes a stored sample; the new sample is stored last and all others are kept unchanged in order; Rejected only for a reached resource limit (then nothing changes); NotAdded never; resource-limit and representation invariants hold again.
+// @bounds exactly 2 stored sample(s), KEEP_ALL, BY_RECEPTION_TIMESTAMP, 2 instance handles (both registered), 2 writers, each resource limit in {1,2,3,unlimited} (QoS consistent), all 5 change kinds for stored and incoming samples, source timestamps None or sec 0..4 x nanosec {0, 5*10^8}, symbolic sample/view/instance states and generation counts 0..2, instance_ownership empty; unwind 6 (lists <= 4 elements + 2)
+// @assume pre-state satisfies the representation invariant R1-R3, the KEEP_LAST invariant (<= depth ALIVE samples per instance) and the resource-limit invariant (all re-asserted after the step)
+// @assume DataReaderQos::is_consistent() holds; ownership SHARED; time-based filter off (minimum_separation 0)
+// @assume <InstanceHandle as PartialEq>::eq replaced by the loop-free handle_eq_stub (equivalence: c18_handle_eq_stub_is_equivalent)
+// @enc dcps::dcps_domain_participant::data_reader_entity::DataReaderEntity::add_reader_change
+// @enc dcps::dcps_domain_participant::data_reader_entity::InstanceState::update_state
+#[kani::proof]
+#[kani::unwind(6)]
+#[kani::solver(minisat)]
+#[kani::stub(<crate::infrastructure::instance::InstanceHandle as HandlePartialEq<crate::infrastructure::instance::InstanceHandle>>::eq, super::support_reader::handle_eq_stub)]
+fn c18_keep_all_n2() {
+    let o = c18_check(&plain(2), Hist::KeepAll, BY_RECEPTION);
+    keep_all_covers(&o);
+}
+
+// @check props=C18 tier=quick known=KF-C18-1
+// @desc KF-C18-1: KEEP_LAST(depth) reader, the instance of the incoming change holds depth ALIVE samples and max_samples_per_instance (== all samples of the instance) or max_samples (== all ALIVE samples) is reached: the property demands replacement of the oldest sample, the implementation answers Rejected.
+// @bounds exactly 1 stored sample(s), KEEP_LAST(1..=3), BY_RECEPTION_TIMESTAMP, 2 instance handles (both registered), 2 writers, each resource limit in {1,2,3,unlimited} (QoS consistent), all 5 change kinds for stored and incoming samples, source timestamps None or sec 0..4 x nanosec {0, 5*10^8}, symbolic sample/view/instance states and generation counts 0..2, instance_ownership empty; unwind 6 (lists <= 4 elements + 2)
+// @assume the KF-C18-1 trigger (replacement case and a reached max_samples_per_instance / max_samples); R1-R3, KEEP_LAST and resource-limit invariants; consistent QoS
+// @assume <InstanceHandle as PartialEq>::eq replaced by the loop-free handle_eq_stub (equivalence: c18_handle_eq_stub_is_equivalent)
+// @enc dcps::dcps_domain_participant::data_reader_entity::DataReaderEntity::add_reader_change
+#[kani::proof]
+#[kani::unwind(6)]
+#[kani::solver(minisat)]
+#[kani::stub(<crate::infrastructure::instance::InstanceHandle as HandlePartialEq<crate::infrastructure::instance::InstanceHandle>>::eq, super::support_reader::handle_eq_stub)]
+fn c18_keep_last_rejects_at_limit__known() {
+    c18_known(&plain(1));
+}
+
+// @check props=C18 tier=thorough
+// @desc Empty cache, KEEP_LAST(depth) (the KEEP_ALL run is c19_reader_limits_keep_all_n0): one real add_reader_change stores the first sample, removes nothing and never answers Rejected or NotAdded (an empty cache reaches no limit).
+// @bounds 0 stored samples, KEEP_LAST(1..=3), BY_RECEPTION_TIMESTAMP, 2 instance handles (both registered), 2 writers, each resource limit in {1,2,3,unlimited} (QoS consistent), all 5 change kinds for stored and incoming samples, source timestamps None or sec 0..4 x nanosec {0, 5*10^8}, symbolic sample/view/instance states and generation counts 0..2, instance_ownership empty; unwind 6 (lists <= 4 elements + 2)
+// @assume pre-state satisfies the representation invariant R1-R3, the KEEP_LAST invariant (<= depth ALIVE samples per instance) and the resource-limit invariant (all re-asserted after the step)
+// @assume DataReaderQos::is_consistent() holds; ownership SHARED; time-based filter off (minimum_separation 0)
+// @assume <InstanceHandle as PartialEq>::eq replaced by the loop-free handle_eq_stub (equivalence: c18_handle_eq_stub_is_equivalent)
+// @enc dcps::dcps_domain_participant::data_reader_entity::DataReaderEntity::add_reader_change
+// @enc dcps::dcps_domain_participant::data_reader_entity::InstanceState::update_state
+#[kani::proof]
+#[kani::unwind(6)]
+#[kani::solver(minisat)]
+#[kani::stub(<crate::infrastructure::instance::InstanceHandle as HandlePartialEq<crate::infrastructure::instance::InstanceHandle>>::eq, super::support_reader::handle_eq_stub)]
+fn c18_empty_cache() {
+    let o = c18_check(&plain(0), Hist::KeepLast, BY_RECEPTION);
+    kani::cover!(o.res == StepResult::Added && o.grew, "first sample stored");
+    assert!(!matches!(o.res, StepResult::Rejected(_, _)), "C18: an empty cache rejects nothing");
+}
+
+// @check props=C18 tier=thorough
+// @desc KEEP_LAST(depth), BY_RECEPTION_TIMESTAMP, cache with exactly 3 stored sample(s): one real add_reader_change; the new sample is stored last; a sample is removed only when the instance already holds depth ALIVE samples and then it is the oldest (first stored) ALIVE sample of that instance; all other samples are kept unchanged in their order; Rejected only for a reached resource limit and then nothing changes; NotAdded never; history, resource-limit and representation invariants hold again. Outside the trigger of KF-C18-1.
+// @bounds exactly 3 stored sample(s), KEEP_LAST(depth) with depth 1..=3, BY_RECEPTION_TIMESTAMP, 2 instance handles (both registered), 2 writers, each resource limit in {1,2,3,unlimited} (QoS consistent), all 5 change kinds for stored and incoming samples, source timestamps None or sec 0..4 x nanosec {0, 5*10^8}, symbolic sample/view/instance states and generation counts 0..2, instance_ownership empty; unwind 6 (lists <= 4 elements + 2)
+// @assume pre-state satisfies the representation invariant R1-R3, the KEEP_LAST invariant (<= depth ALIVE samples per instance) and the resource-limit invariant (all re-asserted after the step)
+// @assume DataReaderQos::is_consistent() holds; ownership SHARED; time-based filter off (minimum_separation 0)
+// @assume negation of the KF-C18-1 trigger: not (the instance holds depth ALIVE samples and (samples of the instance == max_samples_per_instance or ALIVE samples == max_samples))
+// @assume <InstanceHandle as PartialEq>::eq replaced by the loop-free handle_eq_stub (equivalence: c18_handle_eq_stub_is_equivalent)
+// @enc dcps::dcps_domain_participant::data_reader_entity::DataReaderEntity::add_reader_change
+// @enc dcps::dcps_domain_participant::data_reader_entity::InstanceState::update_state
+#[kani::proof]
+#[kani::unwind(6)]
+#[kani::solver(minisat)]
+#[kani::stub(<crate::infrastructure::instance::InstanceHandle as HandlePartialEq<crate::infrastructure::instance::InstanceHandle>>::eq, super::support_reader::handle_eq_stub)]
+fn c18_keep_last_n3__rest() {
+    let o = c18_check(&plain(3), Hist::KeepLast, BY_RECEPTION);
+    keep_last_covers_n2(&o);
+}
+
+// @check props=C18 tier=thorough
+// @desc KEEP_ALL, BY_RECEPTION_TIMESTAMP, cache with exactly 1 stored sample(s): one real add_reader_change never removes a stored sample; the new sample is stored last and all others are kept unchanged in order; Rejected only for a reached resource limit (then nothing changes); NotAdded never; resource-limit and representation invariants hold again.
+// @bounds exactly 1 stored sample(s), KEEP_ALL, BY_RECEPTION_TIMESTAMP, 2 instance handles (both registered), 2 writers, each resource limit in {1,2,3,unlimited} (QoS consistent), all 5 change kinds for stored and incoming samples, source timestamps None or sec 0..4 x nanosec {0, 5*10^8}, symbolic sample/view/instance states and generation counts 0..2, instance_ownership empty; unwind 6 (lists <= 4 elements + 2)
+// @assume pre-state satisfies the representation invariant R1-R3, the KEEP_LAST invariant (<= depth ALIVE samples per instance) and the resource-limit invariant (all re-asserted after the step)
+// @assume DataReaderQos::is_consistent() holds; ownership SHARED; time-based filter off (minimum_separation 0)
+// @assume <InstanceHandle as PartialEq>::eq replaced by the loop-free handle_eq_stub (equivalence: c18_handle_eq_stub_is_equivalent)
+// @enc dcps::dcps_domain_participant::data_reader_entity::DataReaderEntity::add_reader_change
+// @enc dcps::dcps_domain_participant::data_reader_entity::InstanceState::update_state
+#[kani::proof]
+#[kani::unwind(6)]
+#[kani::solver(minisat)]
+#[kani::stub(<crate::infrastructure::instance::InstanceHandle as HandlePartialEq<crate::infrastructure::instance::InstanceHandle>>::eq, super::support_reader::handle_eq_stub)]
+fn c18_keep_all_n1() {
+    let o = c18_check(&plain(1), Hist::KeepAll, BY_RECEPTION);
+    keep_all_covers(&o);
+}
+
+// @check props=C18 tier=thorough
+// @desc KEEP_ALL, BY_RECEPTION_TIMESTAMP, cache with exactly 3 stored sample(s): one real add_reader_change never removes a stored sample; the new sample is stored last and all others are kept unchanged in order; Rejected only for a reached resource limit (then nothing changes); NotAdded never; resource-limit and representation invariants hold again.
+// @bounds exactly 3 stored sample(s), KEEP_ALL, BY_RECEPTION_TIMESTAMP, 2 instance handles (both registered), 2 writers, each resource limit in {1,2,3,unlimited} (QoS consistent), all 5 change kinds for stored and incoming samples, source timestamps None or sec 0..4 x nanosec {0, 5*10^8}, symbolic sample/view/instance states and generation counts 0..2, instance_ownership empty; unwind 6 (lists <= 4 elements + 2)
+// @assume pre-state satisfies the representation invariant R1-R3, the KEEP_LAST invariant (<= depth ALIVE samples per instance) and the resource-limit invariant (all re-asserted after the step)
+// @assume DataReaderQos::is_consistent() holds; ownership SHARED; time-based filter off (minimum_separation 0)
+// @assume <InstanceHandle as PartialEq>::eq replaced by the loop-free handle_eq_stub (equivalence: c18_handle_eq_stub_is_equivalent)
+// @enc dcps::dcps_domain_participant::data_reader_entity::DataReaderEntity::add_reader_change
+// @enc dcps::dcps_domain_participant::data_reader_entity::InstanceState::update_state
+#[kani::proof]
+#[kani::unwind(6)]
+#[kani::solver(minisat)]
+#[kani::stub(<crate::infrastructure::instance::InstanceHandle as HandlePartialEq<crate::infrastructure::instance::InstanceHandle>>::eq, super::support_reader::handle_eq_stub)]
+fn c18_keep_all_n3() {
+    let o = c18_check(&plain(3), Hist::KeepAll, BY_RECEPTION);
+    keep_all_covers(&o);
+}
+
+// @check props=C18 tier=thorough
+// @desc KEEP_LAST(depth), BY_SOURCE_TIMESTAMP, cache with exactly 2 stored sample(s): one real add_reader_change; the new sample is stored (its position is the subject of C21); a sample is removed only when the instance already holds depth ALIVE samples and then it is the oldest (first stored) ALIVE sample of that instance; all other samples are kept unchanged in their order; Rejected only for a reached resource limit and then nothing changes; NotAdded never; history, resource-limit and representation invariants hold again. Outside the trigger of KF-C18-1.
+// @bounds exactly 2 stored sample(s), KEEP_LAST(depth) with depth 1..=3, BY_SOURCE_TIMESTAMP, 2 instance handles (both registered), 2 writers, each resource limit in {1,2,3,unlimited} (QoS consistent), all 5 change kinds for stored and incoming samples, source timestamps None or sec 0..4 x nanosec {0, 5*10^8}, symbolic sample/view/instance states and generation counts 0..2, instance_ownership empty; unwind 6 (lists <= 4 elements + 2)
+// @assume pre-state satisfies the representation invariant R1-R3, the KEEP_LAST invariant (<= depth ALIVE samples per instance) and the resource-limit invariant (all re-asserted after the step)
+// @assume DataReaderQos::is_consistent() holds; ownership SHARED; time-based filter off (minimum_separation 0)
+// @assume negation of the KF-C18-1 trigger: not (the instance holds depth ALIVE samples and (samples of the instance == max_samples_per_instance or ALIVE samples == max_samples))
+// @assume <InstanceHandle as PartialEq>::eq replaced by the loop-free handle_eq_stub (equivalence: c18_handle_eq_stub_is_equivalent)
+// @enc dcps::dcps_domain_participant::data_reader_entity::DataReaderEntity::add_reader_change
+// @enc dcps::dcps_domain_participant::data_reader_entity::InstanceState::update_state
+#[kani::proof]
+#[kani::unwind(6)]
+#[kani::solver(minisat)]
+#[kani::stub(<crate::infrastructure::instance::InstanceHandle as HandlePartialEq<crate::infrastructure::instance::InstanceHandle>>::eq, super::support_reader::handle_eq_stub)]
+fn c18_keep_last_source_order_n2__rest() {
+    let o = c18_check(&plain(2), Hist::KeepLast, BY_SOURCE);
+    keep_last_covers_n2(&o);
+}
+
+// @check props=C18 tier=thorough
+// @desc KEEP_ALL, BY_SOURCE_TIMESTAMP, cache with exactly 2 stored sample(s): one real add_reader_change never removes a stored sample; the new sample is stored (its position is the subject of C21) and all others are kept unchanged in order; Rejected only for a reached resource limit (then nothing changes); NotAdded never; resource-limit and representation invariants hold again.
+// @bounds exactly 2 stored sample(s), KEEP_ALL, BY_SOURCE_TIMESTAMP, 2 instance handles (both registered), 2 writers, each resource limit in {1,2,3,unlimited} (QoS consistent), all 5 change kinds for stored and incoming samples, source timestamps None or sec 0..4 x nanosec {0, 5*10^8}, symbolic sample/view/instance states and generation counts 0..2, instance_ownership empty; unwind 6 (lists <= 4 elements + 2)
+// @assume pre-state satisfies the representation invariant R1-R3, the KEEP_LAST invariant (<= depth ALIVE samples per instance) and the resource-limit invariant (all re-asserted after the step)
+// @assume DataReaderQos::is_consistent() holds; ownership SHARED; time-based filter off (minimum_separation 0)
+// @assume <InstanceHandle as PartialEq>::eq replaced by the loop-free handle_eq_stub (equivalence: c18_handle_eq_stub_is_equivalent)
+// @enc dcps::dcps_domain_participant::data_reader_entity::DataReaderEntity::add_reader_change
+// @enc dcps::dcps_domain_participant::data_reader_entity::InstanceState::update_state
+#[kani::proof]
+#[kani::unwind(6)]
+#[kani::solver(minisat)]
+#[kani::stub(<crate::infrastructure::instance::InstanceHandle as HandlePartialEq<crate::infrastructure::instance::InstanceHandle>>::eq, super::support_reader::handle_eq_stub)]
+fn c18_keep_all_source_order_n2() {
+    let o = c18_check(&plain(2), Hist::KeepAll, BY_SOURCE);
+    keep_all_covers(&o);
+}
+
+// @check props=C18 tier=thorough
+// @desc The KEEP_LAST contract when both instances have an instance_ownership entry (the entry of the instance is refreshed, or removed by a dispose/unregister): the table must not influence the sample cache under SHARED ownership.
+// @bounds exactly 2 stored samples, instance_ownership holds both instances, KEEP_LAST(1..=3), BY_RECEPTION_TIMESTAMP, otherwise as c18_keep_last_n2__rest; unwind 6
+// @assume pre-state satisfies the representation invariant R1-R3, the KEEP_LAST invariant (<= depth ALIVE samples per instance) and the resource-limit invariant (all re-asserted after the step)
+// @assume DataReaderQos::is_consistent() holds; ownership SHARED; time-based filter off (minimum_separation 0)
+// @assume negation of the KF-C18-1 trigger: not (the instance holds depth ALIVE samples and (samples of the instance == max_samples_per_instance or ALIVE samples == max_samples))
+// @assume <InstanceHandle as PartialEq>::eq replaced by the loop-free handle_eq_stub (equivalence: c18_handle_eq_stub_is_equivalent)
+// @enc dcps::dcps_domain_participant::data_reader_entity::DataReaderEntity::add_reader_change
+#[kani::proof]
+#[kani::unwind(6)]
+#[kani::solver(minisat)]
+#[kani::stub(<crate::infrastructure::instance::InstanceHandle as HandlePartialEq<crate::infrastructure::instance::InstanceHandle>>::eq, super::support_reader::handle_eq_stub)]
+fn c18_keep_last_owned_n2__rest() {
+    let st = Structure { n: 2, known: [true, true], owned: [true, true] };
+    let o = c18_check(&st, Hist::KeepLast, BY_RECEPTION);
+    keep_last_covers_n2(&o);
+}
+
+// @check props=C18 tier=thorough
+// @desc A change for an instance the reader has never seen (handle 0 not registered; the stored sample belongs to handle 1): an ALIVE change registers the instance and is stored under the same rules, a dispose/unregister is an error and leaves the cache untouched.
+// @bounds exactly 1 stored sample (of the registered instance), instance handle 0 unregistered, KEEP_LAST(1..=3), BY_RECEPTION_TIMESTAMP, otherwise as c18_keep_last_n1__rest; unwind 6
+// @assume pre-state satisfies the representation invariant R1-R3, the KEEP_LAST invariant (<= depth ALIVE samples per instance) and the resource-limit invariant (all re-asserted after the step)
+// @assume DataReaderQos::is_consistent() holds; ownership SHARED; time-based filter off (minimum_separation 0)
+// @assume negation of the KF-C18-1 trigger: not (the instance holds depth ALIVE samples and (samples of the instance == max_samples_per_instance or ALIVE samples == max_samples))
+// @assume <InstanceHandle as PartialEq>::eq replaced by the loop-free handle_eq_stub (equivalence: c18_handle_eq_stub_is_equivalent)
+// @enc dcps::dcps_domain_participant::data_reader_entity::DataReaderEntity::add_reader_change
+#[kani::proof]
+#[kani::unwind(6)]
+#[kani::solver(minisat)]
+#[kani::stub(<crate::infrastructure::instance::InstanceHandle as HandlePartialEq<crate::infrastructure::instance::InstanceHandle>>::eq, super::support_reader::handle_eq_stub)]
+fn c18_keep_last_new_instance__rest() {
+    // rep_ok forces the stored sample into the registered instance 1
+    let st = Structure { n: 1, known: [false, true], owned: [false, false] };
+    let o = c18_check(&st, Hist::KeepLast, BY_RECEPTION);
+    kani::cover!(o.res == StepResult::Error, "dispose/unregister of an unknown instance is an error");
+    kani::cover!(o.res == StepResult::Added && !o.replacement_case, "an ALIVE change of a new instance is stored");
+}
+
+// @check props=C18 tier=thorough known=KF-C18-1
+// @desc KF-C18-1: KEEP_LAST(depth) reader, the instance of the incoming change holds depth ALIVE samples and max_samples_per_instance (== all samples of the instance) or max_samples (== all ALIVE samples) is reached: the property demands replacement of the oldest sample, the implementation answers Rejected.
+// @bounds exactly 2 stored sample(s), KEEP_LAST(1..=3), BY_RECEPTION_TIMESTAMP, 2 instance handles (both registered), 2 writers, each resource limit in {1,2,3,unlimited} (QoS consistent), all 5 change kinds for stored and incoming samples, source timestamps None or sec 0..4 x nanosec {0, 5*10^8}, symbolic sample/view/instance states and generation counts 0..2, instance_ownership empty; unwind 6 (lists <= 4 elements + 2)
+// @assume the KF-C18-1 trigger (replacement case and a reached max_samples_per_instance / max_samples); R1-R3, KEEP_LAST and resource-limit invariants; consistent QoS
+// @assume <InstanceHandle as PartialEq>::eq replaced by the loop-free handle_eq_stub (equivalence: c18_handle_eq_stub_is_equivalent)
+// @enc dcps::dcps_domain_participant::data_reader_entity::DataReaderEntity::add_reader_change
+#[kani::proof]
+#[kani::unwind(6)]
+#[kani::solver(minisat)]
+#[kani::stub(<crate::infrastructure::instance::InstanceHandle as HandlePartialEq<crate::infrastructure::instance::InstanceHandle>>::eq, super::support_reader::handle_eq_stub)]
+fn c18_keep_last_rejects_at_limit_n2__known() {
+    c18_known(&plain(2));
 }
